@@ -3,6 +3,7 @@ package main
 import (
 	"encoding/hex"
 	"encoding/json"
+	"fmt"
 	"os"
 	"path/filepath"
 
@@ -219,6 +220,28 @@ func runC12(o Opts) error {
 			bs[j] = (alpha[rnd.Intn(len(alpha))]-'0')<<4 | (alpha[rnd.Intn(len(alpha))] - '0')
 		}
 		c12dec(s, bs, "dec-few-digits")
+	}
+	// very long digit strings (beyond what a case file can carry): decode(encode(s)) is s left-padded to even length,
+	// which is the round-trip theorem; odd and even lengths around 10^6 and 2*10^6
+	if o.Replay == "" {
+		for _, n := range []int{999999, 1000000, 1000001, 2000001} {
+			big := make([]byte, n)
+			for j := range big {
+				big[j] = '0' + byte((j*7+n)%10)
+			}
+			enc, err := bcd.Encode(string(big))
+			want := string(big)
+			if n%2 == 1 {
+				want = "0" + want
+			}
+			if err != nil || enc == nil {
+				s.Fail(map[string]any{"op": "enc-huge", "length": n}, fmt.Sprintf("Encode refused a string of %d decimal digits: %v", n, err))
+				continue
+			}
+			if dec, derr := bcd.Decode(*enc); derr != nil || dec != want {
+				s.Fail(map[string]any{"op": "enc-huge", "length": n}, fmt.Sprintf("decode(encode(s)) differs from s for a string of %d decimal digits", n))
+			}
+		}
 	}
 	return s.Close()
 }
